@@ -687,7 +687,11 @@ func (mpt *MerklePatriciaTrie) deleteAtNode(key Key, node Node, prefix, path Pat
 		return mpt.insertNode(node, nnode)
 	case *LeafNode:
 		if bytes.Equal(path, nodeImpl.Path) {
-			return mpt.deleteAfterPathTraversal(node)
+			// the leaf holds exactly this path: remove it
+			if err := mpt.deleteNode(node); err != nil {
+				return nil, nil, err
+			}
+			return nil, nil, nil
 		}
 
 		return nil, nil, ErrValueNotPresent // There is nothing to delete
